@@ -50,7 +50,7 @@ def config(rng, tier):
         "disabled": disabled,
         "mix": rng.choice(["both", "both", "interval", "point"]),
         # size class: mostly small tiers, sometimes tiers past any plausible small-n/large-n switch
-        "maxn": rng.choice([8] * 32 + [24, 24, 24, 40, 40, 120, 120, 320]),
+        "maxn": rng.choice([8] * 30 + [24, 24, 24, 40, 40, 120, 120, 320, 320, 640]),
     }
 
 
